@@ -238,11 +238,16 @@ fn modules_foo_is_newly_imported_from(doc: &Doc, edits: &[(Location, String)]) -
   after
 }
 
-fn check_edits(
+fn check_edits(w: &World, doc: &Doc, edits: &[(Location, String)], target: &str, source_of_edits: &str) -> Option<(String, String)> {
+  check_edits_for(w, doc, edits, target, "Foo", source_of_edits)
+}
+
+fn check_edits_for(
   w: &World,
   doc: &Doc,
   edits: &[(Location, String)],
   target: &str,
+  class_name: &str,
   source_of_edits: &str,
 ) -> Option<(String, String)> {
   let ctx = format!("{source_of_edits}:{}", class_defect(doc));
@@ -269,12 +274,12 @@ fn check_edits(
   }
   let imports_foo_from_target = m2.imports.iter().any(|i| {
     i.imported_module.pretty_print(&heap) == target
-      && i.imported_members.iter().any(|id| id.name.as_str(&heap) == "Foo")
+      && i.imported_members.iter().any(|id| id.name.as_str(&heap) == class_name)
   });
   if !imports_foo_from_target {
     return Some((
       format!("import-not-added:{ctx}"),
-      format!("after applying {edits:?} the document does not import Foo from {target}: {new_text:?}"),
+      format!("after applying {edits:?} the document does not import {class_name} from {target}: {new_text:?}"),
     ));
   }
   // otherwise the same program
@@ -299,7 +304,7 @@ fn check_edits(
   };
   let (b1, mut i1) = body(&h0, &m1);
   let (b2, i2) = body(&heap, &m2);
-  i1.push((target.to_string(), "Foo".to_string()));
+  i1.push((target.to_string(), class_name.to_string()));
   i1.sort();
   if b1 != b2 || i1 != i2 {
     return Some((
@@ -318,10 +323,10 @@ fn check_edits(
   let fresh = ServerState::new(heap3, false, sources);
   for e in fresh.get_errors(&main3) {
     if let ErrorDetail::CannotResolveClass { name, .. } = &e.detail {
-      if name.as_str(&fresh.heap) == "Foo" {
+      if name.as_str(&fresh.heap) == class_name {
         return Some((
           format!("still-unresolved:{ctx}"),
-          format!("after applying {edits:?} Foo is still reported as unresolved: {new_text:?}"),
+          format!("after applying {edits:?} {class_name} is still reported as unresolved: {new_text:?}"),
         ));
       }
     }
@@ -424,6 +429,16 @@ fn main() {
             completions_checked.fetch_add(1, Ordering::Relaxed);
             if let Some((sig, msg)) = check_no_new_diagnostics(&w, doc, &item.additional_edits, &format!("completion-of-local-{}", item.label)) {
               found.push((sig, msg, format!("auto_complete at {}:{} (item {})", p.0, p.1, item.label)));
+            }
+          }
+          // the other classes / interfaces the workspace exports: an item that carries edits must import
+          // the class it is labelled with (from the module that exports it)
+          if let Some((_, module)) = [("Bar", "Lib"), ("IFoo", "Lib"), ("A", "Other"), ("B", "Other")].iter().find(|(l, _)| *l == item.label) {
+            if !item.additional_edits.is_empty() && doc.imports <= 3 {
+              completions_checked.fetch_add(1, Ordering::Relaxed);
+              if let Some((sig, msg)) = check_edits_for(&w, doc, &item.additional_edits, module, &item.label, "completion") {
+                found.push((sig, msg, format!("auto_complete at {}:{} (item {})", p.0, p.1, item.label)));
+              }
             }
           }
           if item.label == "Foo" && !item.additional_edits.is_empty() {
